@@ -45,6 +45,9 @@ TABLE = [
     ("C15x", "meshb", [], "TV_MeshB", 300),
     ("C11x", "rect", None, "TV_Rect", None),
     ("C09x", "vecalg", [], "TV_VecAlg", 400),
+    # growth modules whose cases TLC exports: taken from the last run of the check (bin/check C13 / C14 quick)
+    ("C13x", "pnm", "@c13/bitmap_cases.ndjson", "TV_PnmBitmap", None),
+    ("C14x", "obj", "@c14/poly_cases.ndjson", "TV_ObjPoly", None),
 ]
 MAXREC = 400
 # record fields that re-encode the ARGUMENTS of the call (decoded f32 records, echoed inputs):
@@ -103,7 +106,12 @@ def run_one(pid, sub, extra, tv, n):
     binpath = vf.build_harness()
     d = vf.outdir("selftest")
     cases = os.path.join(d, "%s_%s.ndjson" % (pid, sub))
-    if extra is None:
+    if isinstance(extra, str) and extra.startswith("@"):
+        src = os.path.join(os.path.dirname(d), extra[1:])
+        if not os.path.exists(src):
+            return {"property": pid, "tv": tv, "error": "no exported cases: run bin/check %s quick first" % pid[:3]}
+        open(cases, "w").write(open(src).read())
+    elif extra is None:
         # rect: pairs of rects (the real check takes them from MC_Rect)
         sides = [-99, 0, 1, 3]
         rr = random.Random(5)
